@@ -84,6 +84,8 @@ __CPROVER_ensures(__CPROVER_return_value != -1 || \
 #define CONTRACT_handle_arglist_rest(EXTRA) \
 __CPROVER_requires(OPTTAB_INV && 0 <= n && n < OPT_N && __CPROVER_rw_ok((spif_charptr_t **) OPT_TAB[n].value, sizeof(spif_charptr_t *))) \
 __CPROVER_requires(hasequal == 0) \
+/* the value is the next word (the -eVALUE spelling is finding C08-arglist-attached, unit parse.args_attached) */ \
+__CPROVER_requires(i == argc || val_ptr == (spif_charptr_t) argv[i]) \
 __CPROVER_requires(1 <= i && i <= argc && argc <= 0x7ffffff0 && __CPROVER_rw_ok(argv, ((size_t) argc + 1) * sizeof(char *))) \
 __CPROVER_requires(EXTRA) \
 __CPROVER_requires(vg_k <= (size_t) argc && argv[vg_k] == (char *) vg_old_ptr) \
